@@ -20,6 +20,15 @@ CHECKS = {
  "C08": dict(level="model_checking", design="4/C08",
    text="Selector.tla: TLC enumerates every selector AST with <= 4 (thorough 5) nodes over all explore clauses incl. interpret-as and recursion limits {none,1,100,101,10^6}, each an initial state whose single transition records the model verdict Valid(ast); the harness builds each as a selector-spec node, keeps the ones go-ipld-prime parses, and compares ValidateMaxRecursionDepth(.,100) with the verdict for all of them (exhaustive within the bound).",
    note=TB + "; well-formedness delegated to go-ipld-prime ParseSelector; conditions/stop-at/subset clauses not enumerated", technique="TLC enumeration of the bounded input space + per-case comparison with the real validator"),
+ "C02": dict(level="model_checking", design="4/C02",
+   text="Exchange.tla (requestor algorithm as implemented: traversal record, verifier replay, remote queue, path tracker, retry of last load; honest responder; named deviations) checked exhaustively by TLC with Dev={}: Complete/Thrifty/NoRetransmit/NoHang for every link tree, labeling with shared blocks, path-depth pattern and store split up to 3 (thorough 4) visits. B2: every TLC-enumerated case up to 4 (thorough 5) visits plus every combination of caller extensions up to 3 visits plus seeded random trees is realised as real blocks, exchanged between real GraphSync nodes on verifnet, and judged by TLC (ExchangeOracle.tla) against the reference Ref; non-conforming cases are classified by replaying them in the model with the code's deviations.",
+   note=TB + "; explore-all recursive selector (other selectors only change the link tree); not demanded when the responder lacks the root (content-not-found) or the caller's extensions are untruthful", technique="TLC exhaustive model + TLC batch oracle over real executions of all enumerated cases"),
+ "C03": dict(level="model_checking", design="4/C03",
+   text="RespItems/RespStatus of Exchange.tla are the reference for the responder's wire output; for every enumerated case (all trees/labelings/responder stores up to 4 visits, all combinations of do-not-send-first-blocks 0..N+1, do-not-send-cids subsets and dedup key up to 3 visits, random larger ones) the real responder's metadata sequence, attached blocks and final status recorded on verifnet are compared by TLC with the reference.",
+   note=TB + "; single request per peer in this check (cross-request dedup scopes are decided by C19's LinkTracker graph)", technique="TLC batch oracle over real executions of all enumerated cases"),
+ "C24": dict(level="model_checking", design="4/C24",
+   text="Thrifty and NoRetransmit invariants of Exchange.tla checked exhaustively; on every enumerated and random case the real wire is judged by TLC: no message at all when the requestor holds everything, otherwise do-not-send-first-blocks = locally loaded prefix (max with the caller's value), no block inside the skipped prefix or the ignore set, none twice.",
+   note=TB, technique="TLC exhaustive model + TLC batch oracle over real executions"),
 }
 NA_REASON = "not built yet in this round (check under construction; see DESIGN.md section 4 for the plan)"
 def main():
